@@ -1,6 +1,22 @@
 #!/usr/bin/env python3
 """Regenerate the seeded-changes table in DESIGN.md section 9.4 from seeded/*/meta.json + notes."""
 import glob, json, os, re
+def note_of(m):
+    out = []
+    h = m.get('history')
+    if isinstance(h, str):
+        out.append(h)
+    elif h:
+        for step in h:
+            if step.get('result') == 'missed':
+                out.append("first **missed**: " + step.get('why', ''))
+            else:
+                out.append("caught after: " + step.get('after', ''))
+    if m.get('note'):
+        out.append(m['note'])
+    return "; ".join(out).replace("|", "\\|").replace("\n", " ")
+
+
 rows = ["| seed | property | change (file: mechanism) | needs | quick check | note |", "|---|---|---|---|---|---|"]
 SUMMARY = json.load(open('/verif/seeded/summary.json')) if os.path.exists('/verif/seeded/summary.json') else {}
 for d in sorted(glob.glob('/verif/seeded/*/')):
@@ -11,7 +27,7 @@ for d in sorted(glob.glob('/verif/seeded/*/')):
         continue
     s = SUMMARY.get(name, {})
     rows.append("| %s | %s | %s | %s | %s | %s |" % (name, m['property'], s.get('change', ''), s.get('needs', ''),
-                "**caught**" if m['caught_by_quick_check'] else "missed", m.get('history', '')))
+                "**caught**" if m['caught_by_quick_check'] else "missed", note_of(m)))
 table = "\n".join(rows)
 p = '/verif/DESIGN.md'; t = open(p).read()
 if 'SEEDED_TABLE' in t:
